@@ -151,7 +151,7 @@ func addKeyword(t *rapid.T, o Options, s map[string]any, dom string, depth int) 
 	case "exclusiveMaximum":
 		s["exclusiveMaximum"] = true
 	case "multipleOf":
-		s["multipleOf"] = rapid.SampledFrom([]float64{1, 2, 3, 5, 0.5, 0.25, 10}).Draw(t, "mul")
+		s["multipleOf"] = rapid.SampledFrom([]float64{1, 2, 3, 5, 0.5, 0.25, 10, 2.5, 1.5, 7.5}).Draw(t, "mul")
 	case "minLength":
 		s["minLength"] = u(rapid.IntRange(1, 3).Draw(t, "minl"))
 	case "maxLength":
